@@ -51,6 +51,31 @@ Theorem C11_merge kind name c1 c2 res : wf_clause c1 -> wf_clause c2 ->
   end.
 Proof. exact (vmerge_same_sound kind name c1 c2 res). Qed.
 
+(* the python_version / python_full_version pair: _normalize_python_version_specifier and _merge_python_version_single_markers.
+   pv_operand_ok: the python_version operand is a plain release whose meaningful part has one or two segments (anything else is the
+   recorded finding pv-long-operand).  On every consistent interpreter (python_version = X.Y, python_full_version = X.Y.Z) the
+   normalised specifier admits X.Y.Z exactly when the python_version atom holds, and whatever the merge returns evaluates as the
+   conjunction / disjunction of the two atoms. *)
+Theorem C11_normalize c : pv_operand_ok c ->
+  exists ns, normalize_pv c = Ret ns /\ canon ns /\ forall X Y Z, clause_sem c (pvv X Y) = mem (vcut (pfv X Y Z)) ns.
+Proof. intros H. destruct (normalize_pv_sound c H) as (ns & E & C & _ & M). exists ns. repeat split; assumption. Qed.
+
+Theorem C11_merge_pv kind c_pv c_full res : pv_operand_ok c_pv -> wf_clause c_full ->
+  vmerge_pv kind c_pv c_full = Ret res ->
+  (forall ns sf rs, normalize_pv c_pv = Ret ns -> get_specifier c_full = Ret sf ->
+     (if kind then spec_and ns sf else spec_or ns sf) = Ret rs -> Forall tilde_safe (ranges_of rs)) ->
+  forall X Y Z,
+  let want := bopb kind (clause_sem c_pv (pvv X Y)) (clause_sem c_full (pfv X Y Z)) in
+  match res with
+  | VMFirst => clause_sem c_pv (pvv X Y) = want
+  | VMSecond => True
+  | VMAny => want = true
+  | VMEmpty => want = false
+  | VMAtom k => atom_sem k (pfv X Y Z) = want
+  | VMNone => True
+  end.
+Proof. exact (vmerge_pv_sound kind c_pv c_full res). Qed.
+
 Theorem C11_padding k v : clause_sem (pad_pfv k) v = clause_sem k v.
 Proof. exact (pad_pfv_sem k v). Qed.
 
@@ -62,5 +87,11 @@ Example C11_runs :
             /\ spec_contains s (relver 0 [3; 9; 0]%N) = Ret true /\ spec_contains s (relver 0 [3; 8; 5]%N) = Ret false.
 Proof. eexists. repeat split; vm_compute; reflexivity. Qed.
 
-Definition C11_all := (C11_view, C11_back, C11_padding, C11_merge).
+(* non-vacuity: python_version > "3.7" and python_full_version >= "3.8.5"  merges to  python_full_version >= "3.8.5" *)
+Example C11_pv_runs :
+  pv_operand_ok (mkClause OpGt (relver 0 [3; 7]%N))
+  /\ vmerge_pv true (mkClause OpGt (relver 0 [3; 7]%N)) (mkClause OpGe (relver 0 [3; 8; 5]%N)) = Ret (VMAtom (mkClause OpGe (relver 0 [3; 8; 5]%N))).
+Proof. split; [split; [reflexivity | cbn; auto] | vm_compute; reflexivity]. Qed.
+
+Definition C11_all := (C11_view, C11_back, C11_padding, C11_merge, C11_normalize, C11_merge_pv).
 Redirect "C11.assumptions" Print Assumptions C11_all.
